@@ -60,16 +60,14 @@ def schedules_from_tlc(chk, names, solos, maxpre, shared=False):
     wd = chk.workdir
     ops = [[OPNAME.get(o, "unknown") for o in s["ops"]] for s in solos]
     opsdef = "<<" + ", ".join("<<" + ", ".join(json.dumps(o) for o in t) + ">>" for t in ops) + ">>"
-    mod = f"MC_JtThreads_{abs(hash((tuple(names), maxpre, shared))) % 10**8}"
-    with open(os.path.join(tlc.SPEC_DIR, mod + ".tla"), "w") as f:
+    mod = f"MC_JtThreads_{os.getpid()}_{abs(hash((tuple(names), maxpre, shared))) % 10**8}"
+    # the recorded access sequences become the constant Ops of a generated root module (in the scratch directory)
+    with open(os.path.join(wd, mod + ".tla"), "w") as f:
         f.write(f"---- MODULE {mod} ----\nEXTENDS JtThreads\nOpsDef == {opsdef}\n====\n")
-    try:
-        cfg = os.path.join(wd, mod + ".cfg")
-        tlc.write_cfg(cfg, spec="Spec", constants={"Ops": tlc.Sub("OpsDef"), "SharedStorage": shared, "MaxPreempt": maxpre},
-                      invariants=["Isolation"], constraints=[] if shared else ["Emit"])
-        res = tlc.run(mod, cfg, wd, workers=4, timeout=1200, heap="8g")
-    finally:
-        os.remove(os.path.join(tlc.SPEC_DIR, mod + ".tla"))
+    cfg = os.path.join(wd, mod + ".cfg")
+    tlc.write_cfg(cfg, spec="Spec", constants={"Ops": tlc.Sub("OpsDef"), "SharedStorage": shared, "MaxPreempt": maxpre},
+                  invariants=["Isolation"], constraints=[] if shared else ["Emit"])
+    res = tlc.run(mod, cfg, wd, workers=4, timeout=1200, heap="8g", spec_dir=wd)
     if shared:
         chk.add_tlc(f"JtThreads[{'+'.join(names)}, shared] (must be refuted)", res, expect_violation="Isolation")
         return []
